@@ -3,8 +3,13 @@ C16 — v-once emits each marked element exactly once per render, independently.
 Model: the check at the top of `evaluate` (eval_core.go), assignSeenAttrs (vue.go), the `seen` set shared along the include chain.
 -/
 import Vuego.Lemmas.EvalInv
+import Vuego.Generated.Purity
 namespace Vuego.Props.C16
 open Go Vuego
+
+/-- the bookkeeping map is made anew for every render context (read from NewVueContext): the model's `seen := []` at the start of
+    evaluatePage is what the code does; a pooled or shared map would carry ids of an earlier — e.g. failed — render into the next one -/
+theorem source_seen_made_per_render : Generated.seenMapMadePerRender = true := by decide
 
 /-- (1) a marked element whose id was already seen in this render is skipped: the siblings are evaluated as if it were not there -/
 theorem once_skips_when_seen (W : World) (f : Nat) (ctx : Ctx) (st : St) (tag : Str) (attrs : List Attr) (kids rest : List Node)
